@@ -324,7 +324,7 @@ def check(prop, tier, seed):
     incoq_n = 0
     if cb["model_ok"] and cases:
         k = cfg.get("incoq_" + tier, cfg.get("incoq", 100))
-        plain = [c for c in cases if not c["key"].startswith("known:")]
+        plain = [c for c in cases if not c["key"].startswith("known:") and len(c["in"]) + len(c["out"]) < 6000]
         iok, incoq_n, iout = run_incoq(prop, plain, k, outdir)
         if not iok and not diffs:
             broken.append("in-Coq evaluation (vm_compute) of the model disagrees with the implementation or failed: " + iout[-300:])
